@@ -166,7 +166,7 @@ def obsIf (futs : List (Fut V)) (e : Option (Key × Nat)) : Obs :=
 
 theorem isPending_set_ne (futs : List (Fut V)) (t t' : Nat) (f : Fut V) (h : t ≠ t') :
     isPending (futs.set t f) t' = isPending futs t' := by
-  simp [isPending, getElem?_set, h]
+  simp [isPending, h]
 
 theorem complete_proto_next (c : Conn V) (p : Key × Nat → Bool) (f : Fut V) :
     (complete c p f).1.proto = c.proto ∧ (complete c p f).1.next = c.next := by
